@@ -9,6 +9,17 @@ NOTE_COMMON = ("Trusted: Lean 4.33 kernel; axioms ⊆ {propext, Classical.choice
                "implementation by differential execution (sampled), not by proof. ")
 
 CLAIMED = {
+ "C11": dict(
+   text=("Lean theorems: for EVERY element tree (any nesting of styled elements, text, breaks) the node list the DFXP/SAMI readers build has balanced, properly "
+         "nested style nodes (reader_nodes_balanced, mutual structural induction over the tree); the SCC reader's italics are balanced for every instruction "
+         "list (formatItalics_balanced, see C05); after a caption with flat balanced spans no span is left open in the DFXP writer whatever styles have a "
+         "rendering (no_span_left_open, dfxpText_flag, dfxp_span_closed); WebVTT closing tags are the opening tags in reverse order for all eight style "
+         "combinations (vtt_tags_mirror). Execution: captions with 0-3 flat spans (single and combined styles, across breaks, adjacent, empty) through the "
+         "DFXP/SAMI/WebVTT writers, both readers and all four DFXP<->SAMI directions; per-character (i,b,u) flags and tag balance are extracted by independent "
+         "parsers; the writers' text functions are compared with the Lean models."),
+   ref="§3 C11", technique="Lean 4 proof (mutual structural induction on trees, state invariants, case analysis) + per-character flag oracle + correspondence",
+   note=NOTE_COMMON + "Equality of the per-character flags across conversions is established by execution, not by a theorem; bold/underline have no DFXP rendering in pycaption and are only required where the target carries them."),
+
  "C08": dict(
    text=("Lean theorems over all instants and all chains: the formats' time grids are nested (frames of milliseconds = frames, ...), each hop is idempotent, a "
          "chain of any length brings an instant to the coarsest grid on the chain and nothing more (chain_coarsest, induction over the chain), and a second "
